@@ -45,6 +45,23 @@ def cases(tier, seed):
     return out
 
 
+def _extreme_cover(term):
+    """variables below the max nodes / the min nodes of a term's DAG"""
+    from symt import terms as tm
+
+    nodes = {"max": [], "min": []}
+    seen, stack = set(), [term]
+    while stack:
+        t = stack.pop()
+        if t.uid in seen:
+            continue
+        seen.add(t.uid)
+        if t.op in nodes:
+            nodes[t.op].append(t)
+        stack.extend(a for a in t.args if isinstance(a, tm.T))
+    return {k: tm.support(v) for k, v in nodes.items()}
+
+
 def qmax_of(q_t):
     return float(torch.finfo(q_t.dtype).max) if q_t.is_floating_point else float(torch.iinfo(q_t.dtype).max)
 
@@ -330,10 +347,24 @@ def run_case(case, res):
                                 break
                         if miss:
                             break
+                    if miss is None and lowbit:
+                        # affine range: every element must reach the result through a max node AND through a min node (it can be
+                        # the upper or the lower extreme of its group); otherwise a value-directed witness makes it that extreme
+                        name2idx = {W[i].args[0]: i for i in np.ndindex(shape)}
+                        for st in SC.reshape(-1):
+                            sup = tm.support([st])
+                            cov = _extreme_cover(st)
+                            for opn, sign in (("max", 1.0), ("min", -1.0)):
+                                lack = sorted(sup - cov[opn])
+                                if lack and cov[opn] and lack[0] in name2idx:
+                                    miss = (name2idx[lack[0]], name2idx[lack[0]], sign)
+                                    break
+                            if miss:
+                                break
                     res.query("scale-depends-on-every-group-element", "ALG", "unsat" if miss is None else "sat", 0.0, sub=cfg, nvars=w.numel())
                     if miss is not None:
                         w3 = w.clone()
-                        w3[miss[1]] = (w.float().abs().max() * 6 + 1).to(dt)  # value-directed witness: the ignored element becomes the extreme
+                        w3[miss[1]] = ((w.float().abs().max() * 6 + 1) * (miss[2] if len(miss) > 2 else 1.0)).to(dt)  # value-directed witness: the ignored element becomes the extreme
                         res.candidate("full-range", "ALG", dict(w=api.enc_tensor(w3), qtype=case["qtype"], axis=axis, group_size=gs, source="weight" if not lowbit else "dep-affine"), note=f"result {miss[0]} does not depend on element {miss[1]} of its group")
                     if bad is not None:
                         # witness pair: same group, other groups rescaled
